@@ -17,7 +17,6 @@ package redis
 import (
 	"fmt"
 	"net"
-	"strings"
 	"sync"
 	"time"
 
@@ -106,8 +105,21 @@ func (p *redisProc) addHandler(scope *stats.Scope, cmd string, fn commandHandleF
 }
 
 func (p *redisProc) findHandler(cmd string) (*commandHandler, bool) {
-	hdlr, ok := p.cmdHdlrs[strings.ToLower(cmd)]
+	hdlr, ok := p.cmdHdlrs[asciiLower(cmd)]
 	return hdlr, ok
+}
+
+// asciiLower folds ASCII letters only. Command names are ASCII, and unicode
+// case folding would let a name such as "H\u212aEYS" (KELVIN SIGN) match a
+// supported command and be forwarded to the backend.
+func asciiLower(s string) string {
+	b := []byte(s)
+	for i, c := range b {
+		if 'A' <= c && c <= 'Z' {
+			b[i] = c + 'a' - 'A'
+		}
+	}
+	return string(b)
 }
 
 func (p *redisProc) Start() error {
